@@ -209,7 +209,7 @@ def run_engine(w, pkgs="./...", harness="", nmin=0, nmax=0, timeout_s=0, max_pat
     if overlay:
         cmd += ["-overlay", overlay]
     try:
-        r = subprocess.run(cmd, env=engine_env(), capture_output=True, text=True, timeout=wall_limit)
+        r = subprocess.run(cmd, env=engine_env(), capture_output=True, text=True, errors="replace", timeout=wall_limit)
     except subprocess.TimeoutExpired:
         raise Inconclusive("engine exceeded wall limit %ss" % wall_limit)
     if not os.path.exists(out):
@@ -221,6 +221,24 @@ def run_engine(w, pkgs="./...", harness="", nmin=0, nmax=0, timeout_s=0, max_pat
     return res
 
 
+def test_binary(w, rel):
+    """Compile the harness package's test binary once; it is then run (and, if
+    it hangs, killed) directly."""
+    cache = w.__dict__.setdefault("testbins", {})
+    if rel in cache:
+        return cache[rel]
+    out = os.path.join(w.dir, "tb", hashlib.sha1(rel.encode()).hexdigest()[:12] + ".test")
+    os.makedirs(os.path.dirname(out), exist_ok=True)
+    r = subprocess.run(["go", "test", "-vet=off", "-c", "-o", out, "./" + rel], cwd=w.mod, env=base_env(),
+                       capture_output=True, text=True, errors="replace")
+    if r.returncode != 0 or not os.path.exists(out):
+        cache[rel] = None
+        log("native build failed for", rel, r.stderr[-800:])
+        return None
+    cache[rel] = out
+    return out
+
+
 def native_run(w, rel, harness, arg, model, timeout=120):
     """Run one harness natively (go test in the scratch module) with the model.
     Returns dict(fails=[..], reach=[..], notes=[..], panic=str|None, done=bool, timeout=bool)."""
@@ -229,15 +247,35 @@ def native_run(w, rel, harness, arg, model, timeout=120):
         json.dump({"model": model}, f)
     env = base_env()
     env.update({"VERIF_REPLAY": mp, "VERIF_HARNESS": harness, "VERIF_ARG": str(arg)})
-    try:
-        r = subprocess.run(["go", "test", "-vet=off", "-count=1", "-run", "TestReplay$", "-v", "./" + rel], cwd=w.mod, env=env,
-                           capture_output=True, text=True, timeout=timeout)
-        return parse_native(r.stdout + r.stderr)
-    except subprocess.TimeoutExpired as e:
-        out = (e.stdout or b"").decode("utf-8", "replace") if isinstance(e.stdout, bytes) else (e.stdout or "")
-        res = parse_native(out)
-        res["timeout"] = True
+    tb = test_binary(w, rel)
+    if tb is None:
+        res = parse_native("")
+        res["raw"] = "native test binary did not build"
         return res
+    out, timed_out = run_group([tb, "-test.run", "TestReplay$", "-test.v", "-test.timeout", "%ds" % (timeout + 30)],
+                               cwd=os.path.join(w.mod, rel), env=env, timeout=timeout)
+    res = parse_native(out)
+    if timed_out or "panic: test timed out" in out:
+        res["timeout"] = True
+        res["panic"] = None
+    return res
+
+
+def run_group(cmd, cwd, env, timeout):
+    """Run cmd in its own process group; on timeout kill the whole group (a
+    hanging test binary must not survive)."""
+    import signal
+    p = subprocess.Popen(cmd, cwd=cwd, env=env, stdout=subprocess.PIPE, stderr=subprocess.STDOUT, start_new_session=True)
+    try:
+        out, _ = p.communicate(timeout=timeout)
+        return out.decode("utf-8", "replace"), False
+    except subprocess.TimeoutExpired:
+        try:
+            os.killpg(p.pid, signal.SIGKILL)
+        except ProcessLookupError:
+            pass
+        out, _ = p.communicate()
+        return out.decode("utf-8", "replace"), True
 
 
 def parse_native(text):
@@ -267,12 +305,12 @@ def native_batch(w, rel, items, timeout=300):
         json.dump(items, f)
     env = base_env()
     env["VERIF_BATCH"] = bp
-    try:
-        r = subprocess.run(["go", "test", "-vet=off", "-count=1", "-run", "TestReplayBatch$", "-v", "./" + rel], cwd=w.mod, env=env,
-                           capture_output=True, text=True, timeout=timeout)
-    except subprocess.TimeoutExpired:
+    tb = test_binary(w, rel)
+    if tb is None:
         return None
-    out = r.stdout
+    out, timed_out = run_group([tb, "-test.run", "TestReplayBatch$", "-test.v"], cwd=os.path.join(w.mod, rel), env=env, timeout=timeout)
+    if timed_out:
+        return None
     res = []
     cur = None
     buf = []
@@ -311,6 +349,8 @@ def match_known(prop, cex):
         if "msg_re" in m and not re.search(m["msg_re"], cex.get("msg", "")):
             continue
         if "tag" in m and m["tag"] not in cex.get("tags", []):
+            continue
+        if "model_eq" in m and any((cex.get("model") or {}).get(k) != v for k, v in m["model_eq"].items()):
             continue
         if "input_re" in m and not re.search(m["input_re"], bytes(cex.get("input", [])).decode("latin-1"), re.S):
             continue
